@@ -489,7 +489,8 @@ def _tg_case(draw, tier, bad_bounds=False):
         "start_time": draw(st.one_of(st.none(), st.just(first), st.just(0.0), st.just(first / 2))),
         "end_time": draw(st.one_of(st.none(), st.just(last), st.just(last + 1.0), st.just(last * 2 + 0.5))),
         "by": draw(st.sampled_from(["default", "index", "name", "neg_index"])),
-        "fill": draw(st.one_of(st.none(), st.none(), tx.words(set('"'), max_size=3))),
+        # (the empty label is what Praat itself uses for silence: a legal - and falsy - fill token)
+        "fill": draw(st.one_of(st.none(), st.none(), tx.words(set('"'), max_size=3), st.just(""))),
     }
     if bad_bounds:
         which = draw(st.sampled_from(["start", "end"]))
@@ -663,7 +664,7 @@ def _praat_case(draw, tier):
                       "xmax": float(tx.dec_round(last, p)) + trail * unit if trail else last})
     return {"p": p, "tiers": tiers, "which": draw(st.integers(0, ntiers - 1)),
             "by": draw(st.sampled_from(["index", "name", "neg_index"])),
-            "fill": draw(st.one_of(st.none(), tx.words(set('"'), max_size=3)))}
+            "fill": draw(st.one_of(st.none(), tx.words(set('"'), max_size=3), st.just("")))}
 
 
 def _praat_text(case):
